@@ -1,5 +1,34 @@
 import Spq.Drv.Util
-/- driver family stub (filled in by the owner of this family) -/
+import Spq.Fft
+/-
+  driver family `ff`:
+    ff reim_fft|reim_ifft|cplx_fft|cplx_ifft <flavour> <m> | table patterns… | input patterns…
+  (binary64 values as the decimal value of their 64-bit pattern); answer: output patterns.
+-/
 namespace Spq.Drv
-def handleFf (_args : List String) : Option String := none
+open Spq.Fft
+
+def handleFf (args : List String) : Option String :=
+  let (hd, rest) := splitBar args
+  let (tb, inp) := splitBar rest
+  match hd with
+  | ["angles", op, ms] =>
+    let m := parseNat ms
+    match op with
+    | "reim_fft" => some (entsLine m (reimFftEnts m))
+    | "reim_ifft" => some (entsLine m (reimIfftEnts m))
+    | "cplx_fft" => some (entsLine m (cplxFftEnts m))
+    | "cplx_ifft" => some (entsLine m (cplxIfftEnts m))
+    | _ => none
+  | [op, flav, ms] =>
+    let m := parseNat ms
+    let T := nats tb
+    let d := nats inp
+    match op with
+    | "reim_fft" => some (joinNats (reimFft flav m T d))
+    | "reim_ifft" => some (joinNats (reimIfft flav m T d))
+    | "cplx_fft" => some (joinNats (cplxFft flav m T d))
+    | "cplx_ifft" => some (joinNats (cplxIfft flav m T d))
+    | _ => none
+  | _ => none
 end Spq.Drv
